@@ -597,16 +597,27 @@ def run(res, tier, seed):
                                       if a != b]
     bg = [None, [("tick", MAXAGE + 1)], [("inval", "s0")]]
     items = []
-    for me in ((3,) if tier == "quick" else (2, 3)):
-        for b1 in bodies1:
-            for b2 in ([[o] for o in ops1] if tier == "quick" else bodies1):
-                if repr(b2) < repr(b1) and len(b2) == len(b1):
-                    continue
-                for g in bg:
-                    bodies = [b1, b2] + ([g] if g else [])
-                    if tier == "quick" and g and len(b1) > 1:
+
+    def cache_items(t, bnd):
+        for me in ((3,) if t == "quick" else (2, 3)):
+            for b1 in bodies1:
+                for b2 in ([[o] for o in ops1] if t == "quick" else bodies1):
+                    if repr(b2) < repr(b1) and len(b2) == len(b1):
                         continue
-                    items.append((me, [("A", "s0")], bodies, bound))
+                    for g in bg:
+                        bodies = [b1, b2] + ([g] if g else [])
+                        if t == "quick" and g and len(b1) > 1:
+                            continue
+                        it = (me, [("A", "s0")], bodies, bnd)
+                        if not any(x[:3] == it[:3] and x[3] >= bnd
+                                   for x in items):
+                            items.append(it)
+    if tier == "quick":
+        cache_items("quick", 2)
+    else:
+        # the quick set one preemption deeper, the wider set at bound 2
+        cache_items("quick", 3)
+        cache_items("thorough", 2)
     # clock moving while stores are in flight: one thread stores, the other
     # advances the clock around its own store and then looks an ID up
     half = MAXAGE // 2 + 1
@@ -619,7 +630,7 @@ def run(res, tier, seed):
                     for y in ("A", "B"):
                         t2 = [("tick", a), ("set", x, "s3"), ("tick", b),
                               ("get", y)]
-                        items.append((3, [], [t1, t2], bound))
+                        items.append((3, [], [t1, t2], 2))
                         n_skew += 1
     sch = 0
     incomplete = 0
@@ -633,7 +644,8 @@ def run(res, tier, seed):
             res.violation({"part": "cache-concurrent", "why": f["why"][:50]},
                           f, {"part": "cache-concurrent", "case": f})
     res.section("cache_concurrent", combos=len(items), schedules=sch,
-                preemption_bound=bound, capped=incomplete,
+                preemption_bound={"quick set": bound, "wider set": 2,
+                                  "clock skew": 2}, capped=incomplete,
                 clock_skew_combos=n_skew)
     res.sample({"harness": "SessionCache", "threads": items[5][2],
                 "prepopulated": items[5][1], "maxEntries": items[5][0]})
@@ -673,16 +685,20 @@ def run(res, tier, seed):
                                      [[a, b] for a in dops[:4]
                                       for b in dops[:4]])
     ditems = []
+    quick_bodies = [[o] for o in dops] + [[a, b] for a in dops[:4]
+                                         for b in dops[:4]]
     for b1 in dbodies:
         for b2 in [[o] for o in dops]:
-            ditems.append(([b1, b2], [(b"u", 0)], bound))
+            # (thorough: bound 3 on the quick set, 2 on the rest)
+            ditems.append(([b1, b2], [(b"u", 0)],
+                           bound if b1 in quick_bodies else 2))
     # the same store on disk (anydbm; here the pure-Python dbm.dumb): the
     # operations that change the index, pairwise
     odops = [("set", b"w", 1), ("set", b"x", 0), ("del", b"u"),
              ("set", b"u", 1), ("get", b"u"), ("keys",)]
     for a in odops:
         for b in odops[:4]:
-            ditems.append(([[a], [b]], [(b"u", 0)], bound, True))
+            ditems.append(([[a], [b]], [(b"u", 0)], 2, True))
     ds = 0
     for st in pmap(db_combo, ditems, chunksize=2):
         ds += st["schedules"]
